@@ -705,6 +705,9 @@ def call_method(interp, v, name, args, pl, hint, tf, ctx):
         if f is not None:
             return f(interp, v, args, pl, hint, tf)
     elif isinstance(v, Iter):
+        if name == 'skip_current_dir' and hasattr(v, 'skip_current_dir'):
+            v.skip_current_dir()
+            return ()
         f = ITER_METHODS.get(name)
         if f is not None:
             return f(interp, v, args, pl, hint, tf)
